@@ -290,3 +290,153 @@ func ruleR1(c *Ctx, rule string, only func(key string) bool) {
 		}
 	}
 }
+
+// ---- S3 / S5 (C10, C18-G3): the shared expression tree carries no state ------
+
+// storeDominatesUses: in fn, the store instruction dominates every other
+// instruction that reads the same field of the same base or passes the base on.
+func storeDominatesUses(st *ssa.Store) bool {
+	fa, ok := st.Addr.(*ssa.FieldAddr)
+	if !ok {
+		return false
+	}
+	base := fa.X
+	fn := st.Parent()
+	sb, si := st.Block(), instrIndex(st)
+	ok2 := true
+	eachInstr(fn, func(ins ssa.Instruction) {
+		if ins == ssa.Instruction(st) {
+			return
+		}
+		uses := false
+		switch x := ins.(type) {
+		case *ssa.UnOp:
+			if fa2, ok := x.X.(*ssa.FieldAddr); ok && fa2.X == base && fa2.Field == fa.Field {
+				uses = true
+			}
+		default:
+			if cc := callCommon(ins); cc != nil {
+				for _, a := range cc.Args {
+					if a == base {
+						uses = true
+					}
+				}
+			}
+		}
+		if !uses {
+			return
+		}
+		if ins.Block() == sb {
+			if instrIndex(ins) < si {
+				ok2 = false
+			}
+		} else if !sb.Dominates(ins.Block()) {
+			ok2 = false
+		}
+	})
+	return ok2
+}
+
+func ruleS3(c *Ctx, rule string) {
+	r := c.R
+	m := c.fx()
+	for _, h := range c.handlerRoots() {
+		s := m.sums[h.Fn]
+		if s == nil {
+			continue
+		}
+		bad := 0
+		seen := map[string]bool{}
+		for _, e := range s.muts {
+			if e.Base.o.kind != kParam || e.Base.o.idx != 2 {
+				continue
+			}
+			key := effectKey(h.Fn, e)
+			if seen[key] {
+				continue
+			}
+			seen[key] = true
+			// document-independent value, written before any use in that function
+			docDep := false
+			for v := range e.Vals {
+				if v.o.kind == kParam && v.o.idx != 2 {
+					docDep = true
+				}
+			}
+			st, isStore := e.Site.(*ssa.Store)
+			switch {
+			case e.Dyn != "":
+				// a dynamic update applied to nodes of the expression tree
+				bad++
+				r.FindingPath(rule, key, c.P.pos(e.Site.Pos()), "an update expression is evaluated against a node that belongs to the parsed expression tree: the next document sees the modified literal", e.Chain)
+			case !docDep && isStore && e.SiteFn == h.Fn && storeDominatesUses(st):
+				r.Discharge(rule, key, c.P.pos(e.Site.Pos()), fmt.Sprintf("benign overwrite: handler of %s stores a document-independent value into its expression node before every use of that field (same value on every evaluation)", strings.Join(h.Types, ",")))
+			default:
+				bad++
+				why := "the stored value depends on the document"
+				if !docDep {
+					why = "the store does not precede every read of the field"
+				}
+				r.FindingPath(rule, key, c.P.pos(e.Site.Pos()), fmt.Sprintf("handler of %s writes field %s of an object of the shared expression tree (%s): state is carried from one evaluation to the next", strings.Join(h.Types, ","), e.Field, why), e.Chain)
+			}
+		}
+		// containers / decoders reached from the expression tree
+		for _, p := range s.puts {
+			if p.Base.o.kind != kParam || p.Base.o.idx != 2 {
+				continue
+			}
+			key := fmt.Sprintf("%s/put@%s", funcKey(h.Fn), funcKey(p.Site.Parent()))
+			if seen[key] {
+				continue
+			}
+			seen[key] = true
+			site := p.Site.Parent()
+			if site.Signature.Recv() != nil && (site.Name() == "Init" || site.Name() == "Decode" || strings.HasSuffix(namedTypeName(site.Signature.Recv().Type()), "ecoder")) {
+				r.Discharge(rule, key, c.P.pos(p.Site.Pos()), "state of a decoder object held by the operation's preferences; it is re-initialised by Init before each use (S4). The sharing itself is reported under C18-G2")
+				continue
+			}
+			bad++
+			r.Finding(rule, key, c.P.pos(p.Site.Pos()), fmt.Sprintf("handler of %s stores into a container reachable from the shared expression tree", strings.Join(h.Types, ",")))
+		}
+		// S5: results must not be nodes of the expression tree
+		isRef := false
+		for _, t := range h.Types {
+			if t == "REF" {
+				isRef = true
+			}
+		}
+		leak := ""
+		if len(s.results) > 0 {
+			for _, set := range []oset{s.results[0].Direct, s.results[0].Inner, s.results[0].InnerN} {
+				for x := range set {
+					if x.o.kind == kParam && x.o.idx == 2 && !x.back {
+						leak = x.String()
+					}
+				}
+			}
+		}
+		key := funcKey(h.Fn) + "/result"
+		switch {
+		case leak == "":
+			if bad == 0 {
+				r.Discharge(rule, key, c.P.pos(h.Fn.Pos()), "result nodes are input nodes or fresh copies, never objects of the parsed expression")
+			}
+		case isRef:
+			r.Discharge(rule, key, c.P.pos(h.Fn.Pos()), "REF returns the node its operation carries by design; REF operations are built per evaluation (compoundAssign, merge, decoders), never by the lexer")
+		default:
+			r.Finding(rule, key, c.P.pos(h.Fn.Pos()), fmt.Sprintf("handler of %s can return a node that belongs to the parsed expression tree (%s) instead of a copy: an update applied to the result rewrites the literal for the following documents", strings.Join(h.Types, ","), leak))
+		}
+	}
+	// REF operations must not come from the lexer
+	if c.tables() {
+		for _, lr := range c.Lex.Rules {
+			for _, t := range lr.Tokens {
+				for _, o := range append(append([]*OpType{}, t.Ops...), t.AssignOps...) {
+					if o.Type == "REF" {
+						r.Finding(rule, fmt.Sprintf("lexer-emits-REF[%q]", lr.Pattern), c.P.pos(lr.Pos), "a lexer rule emits REF: its node would live in the shared expression tree")
+					}
+				}
+			}
+		}
+	}
+}
